@@ -62,9 +62,11 @@ Parse(s) ==
                            k |-> CHOOSE k \in ks : TRUE]
                      ELSE bad
 
+Times10(b) == Add(ShiftL(b, 3), ShiftL(b, 1))
+Times20(b) == Add(ShiftL(b, 4), ShiftL(b, 2))
 \* all shown digits read as one integer (bit sequence)
 DigitsToBits(ds) ==
-  FoldLeft(LAMBDA acc, ch : Add(MulSmall(acc, 10), FromNat(DigitVal(ch))), << >>, ds)
+  FoldLeft(LAMBDA acc, ch : Add(Times10(acc), FromNat(DigitVal(ch))), << >>, ds)
 SigDigits(ds) ==
   LET nz == {i \in 1..Len(ds) : ds[i] # "0"}
   IN IF nz = {} THEN 0 ELSE Len(ds) - (CHOOSE i \in nz : \A j \in nz : i <= j) + 1
@@ -76,8 +78,8 @@ ReadableClause(n, s) ==
            f == Len(t.fd)
            D == DigitsToBits(ds)
            unit == Pow2B(Base * t.k)                                  \* 1024^k
-           lhs == AbsDiff(ShiftL(D, Base * t.k + 1), MulSmall(n, IF f = 1 THEN 20 ELSE 2))
-           slack == MulSmall(ShiftR(n, 52), IF f = 1 THEN 20 ELSE 2)
+           lhs == AbsDiff(ShiftL(D, Base * t.k + 1), IF f = 1 THEN Times20(n) ELSE ShiftL(n, 1))
+           slack == IF f = 1 THEN Times20(ShiftR(n, 52)) ELSE ShiftL(ShiftR(n, 52), 1)
        IN IF Leq(FromNat(10), n) /\ SigDigits(ds) < 2 THEN "oracle:ReadableDigits"
           ELSE IF Leq(n, Pow2B(60)) /\ Len(s) > 6 THEN "oracle:ReadableLength"
           ELSE IF ~Leq(lhs, Add(unit, slack)) THEN "oracle:ReadableDistance"
@@ -85,10 +87,14 @@ ReadableClause(n, s) ==
 ReadableOk(n, s) == ReadableClause(n, s) = "ok"
 
 \* ------------------------------------------------------------- design -----
-\* n / 1024^k (times 10 when f = 1) rounded half-even, as a small natural
+\* n / 1024^k (times 10 when f = 1) rounded half-even
+RoundedBits(n, k, f) ==
+  LET m == IF f = 1 THEN Times10(n) ELSE n
+  IN RoundMagHE(ShiftR(m, Base * k), Reverse(Pad(Low(m, Base * k), Base * k)))
+\* ... as a small natural; 10^6 stands for "a million or more" (7 characters
+\* at least: always too long for the loop, never printed for n < 2^80)
 Rounded(n, k, f) ==
-  LET m == IF f = 1 THEN MulSmall(n, 10) ELSE n
-  IN ToNat(RoundMagHE(ShiftR(m, Base * k), Reverse(Pad(Low(m, Base * k), Base * k))))
+  LET b == RoundedBits(n, k, f) IN IF Len(b) > 20 THEN 1000000 ELSE ToNat(b)
 RECURSIVE DigitsOf(_)
 DigitsOf(d) == IF d < 10 THEN <<DigitChars[d + 1]>> ELSE DigitsOf(d \div 10) \o <<DigitChars[(d % 10) + 1]>>
 \* characters of the number: "%.0f" (f = 0) or "%.1f" (f = 1) of n / 1024^k
